@@ -67,7 +67,17 @@ class COFF(BinFormat):
 
     def __init__(self, f):
         self.__file = f
+        try:
+            self.__parse(f)
+        except (COFFError, StructureError):
+            raise
+        except Exception as e:
+            raise COFFError("malformed COFF file (%s)" % repr(e))
+
+    def __parse(self, f):
         self.Fhdr = FILEHDR(f)
+        if self.Fhdr.f_magic not in Consts.All["f_magic"]:
+            raise COFFError("unknown COFF magic number")
         offset = self.Fhdr.size()
         offmax = f.size()-1
         if self.Fhdr.f_opthdr > 0:
